@@ -18,7 +18,7 @@ COQ_CHECK = 'Balancer.check_case'
 COQ_EXPLAIN = 'Balancer.explain_case'
 SHARD = 40
 WORKERS = 6
-RULE = ('in 35% of the model-compared histories the mock channels fail their in-flight requests synchronously inside Close() (as the real transports do: re-entrant completions during a leave; recorded as Leave, then one Complete per failed request) with the pattern: every channel drops, a request marks the members down, a member leaves while marked down and loaded; in 45% some leaves run with a Close() that RAISES (the removal hook of the balancer fails; the provider callback must raise and the member must still be gone) followed by re-joins of the same endpoint; 30% of the real-aperture histories with slow-opening channels; in 70% of the histories endpoints are objects compared by value and EVERY notification (and the initial list) carries a fresh, equal object; 25% run (monitor only) on a REAL ApertureBalancerSink (min_size 1-3 of 4-8 servers, fake clock), 70% of those with load-driven resizing: bursts expand the aperture, completions and a trickle of request/reply pairs contract it again, several rounds; these histories end with every member but one leaving and a dispatch that must reach the remaining member; oracles there: no request to a departed member, no NoMembersError while the server set is non-empty, active + idle endpoints partition the server set after every label (internal); completions whose caller raises or dispatches re-entrantly from its handler; in 40% of the histories the provider has endpoint_name=\'aux\' and members carry additional_endpoints={\'aux\': ep} different from service_endpoint, with join/leave notifications of members lacking that endpoint (must raise ValueError and change nothing; those steps are not labels of the model); 30% go through the real ClientTimeoutSink; seeded random histories over 1-12 endpoints (+ up to 3 spare): in half of them 1-5 join/leave notifications arrive before '
+RULE = ('audit additions: a second, independent balancer instance working in the same process (20%); channels that fail a request INLINE inside AsyncProcessRequest when closed (25%, recorded as Dispatch then Complete) with callers that retry from inside their failure handler (also on NoMembersError); callers whose handler raises a BaseException; channels whose Open() fails (every n-th, asynchronously reported) or raises synchronously during a join; the caller of a request failed inside Close() retrying from inside it; initial channel state Busy; (thorough) 2% histories of 600-1200 operations; real-aperture histories record hub continuations as steps of their own; in 35% of the model-compared histories the mock channels fail their in-flight requests synchronously inside Close() (as the real transports do: re-entrant completions during a leave; recorded as Leave, then one Complete per failed request) with the pattern: every channel drops, a request marks the members down, a member leaves while marked down and loaded; in 45% some leaves run with a Close() that RAISES (the removal hook of the balancer fails; the provider callback must raise and the member must still be gone) followed by re-joins of the same endpoint; 30% of the real-aperture histories with slow-opening channels; in 70% of the histories endpoints are objects compared by value and EVERY notification (and the initial list) carries a fresh, equal object; 25% run (monitor only) on a REAL ApertureBalancerSink (min_size 1-3 of 4-8 servers, fake clock), 70% of those with load-driven resizing: bursts expand the aperture, completions and a trickle of request/reply pairs contract it again, several rounds; these histories end with every member but one leaving and a dispatch that must reach the remaining member; oracles there: no request to a departed member, no NoMembersError while the server set is non-empty, active + idle endpoints partition the server set after every label (internal); completions whose caller raises or dispatches re-entrantly from its handler; in 40% of the histories the provider has endpoint_name=\'aux\' and members carry additional_endpoints={\'aux\': ep} different from service_endpoint, with join/leave notifications of members lacking that endpoint (must raise ValueError and change nothing; those steps are not labels of the model); 30% go through the real ClientTimeoutSink; seeded random histories over 1-12 endpoints (+ up to 3 spare): in half of them 1-5 join/leave notifications arrive before '
         'the initial list (which may contain duplicates or be empty) is installed; afterwards churn-heavy phases (joins of known and '
         'unknown endpoints, leaves of unknown, idle, loaded, marked-down members, re-joins) interleaved with traffic, channel flapping '
         'and saturating bursts; 15% on ApertureBalancerSink with all members active; exhaustive (thorough): every sequence of 5 '
